@@ -49,6 +49,8 @@ type Loaded struct {
 	imports map[string]*types.Package
 	// SrcFiles lists every source file that was type-checked from source
 	SrcFiles []string
+	// Dropped: harness files that did not type-check against the current tree (file -> first error)
+	Dropped map[string]string
 }
 
 func goEnv() []string {
@@ -197,28 +199,62 @@ func Load(repo string, pikePkgs []string, overlay map[string][]string, donors []
 			}
 			files = append(files, f)
 		}
-		info := &types.Info{
-			Types:      map[ast.Expr]types.TypeAndValue{},
-			Defs:       map[*ast.Ident]types.Object{},
-			Uses:       map[*ast.Ident]types.Object{},
-			Implicits:  map[ast.Node]types.Object{},
-			Selections: map[*ast.SelectorExpr]*types.Selection{},
-			Scopes:     map[ast.Node]*types.Scope{},
-			Instances:  map[*ast.Ident]types.Instance{},
-		}
-		var firstErr error
-		conf := types.Config{
-			Importer: &loaderImporter{ld: ld, from: lp, srcWant: srcWant, check: check},
-			Error: func(err error) {
-				if firstErr == nil {
-					firstErr = err
+		// Harness files that do not type-check against the current tree (a renamed unexported field, a
+		// changed signature) are dropped one by one, so that only the properties whose harnesses live in
+		// them become inconclusive; an error in pike's own files is fatal.
+		var info *types.Info
+		var pkg *types.Package
+		for {
+			info = &types.Info{
+				Types:      map[ast.Expr]types.TypeAndValue{},
+				Defs:       map[*ast.Ident]types.Object{},
+				Uses:       map[*ast.Ident]types.Object{},
+				Implicits:  map[ast.Node]types.Object{},
+				Selections: map[*ast.SelectorExpr]*types.Selection{},
+				Scopes:     map[ast.Node]*types.Scope{},
+				Instances:  map[*ast.Ident]types.Instance{},
+			}
+			var firstErr error
+			badFiles := map[string]string{}
+			conf := types.Config{
+				Importer: &loaderImporter{ld: ld, from: lp, srcWant: srcWant, check: check},
+				Error: func(err error) {
+					if te, ok := err.(types.Error); ok && te.Pos.IsValid() {
+						fn := te.Fset.Position(te.Pos).Filename
+						base := filepath.Base(fn)
+						if strings.HasPrefix(base, "zz_") && !strings.HasPrefix(base, "zz_verif_rt") {
+							if _, seen := badFiles[fn]; !seen {
+								badFiles[fn] = err.Error()
+							}
+							return
+						}
+					}
+					if firstErr == nil {
+						firstErr = err
+					}
+				},
+				Sizes: types.SizesFor("gc", "amd64"),
+			}
+			pkg, _ = conf.Check(path, ld.Fset, files, info)
+			if firstErr != nil {
+				return nil, fmt.Errorf("type-check %s: %v", path, firstErr)
+			}
+			if len(badFiles) == 0 {
+				break
+			}
+			var keep []*ast.File
+			for _, f := range files {
+				fn := ld.Fset.Position(f.Pos()).Filename
+				if msg, bad := badFiles[fn]; bad {
+					if ld.Dropped == nil {
+						ld.Dropped = map[string]string{}
+					}
+					ld.Dropped[fn] = msg
+					continue
 				}
-			},
-			Sizes: types.SizesFor("gc", "amd64"),
-		}
-		pkg, _ := conf.Check(path, ld.Fset, files, info)
-		if firstErr != nil {
-			return nil, fmt.Errorf("type-check %s: %v", path, firstErr)
+				keep = append(keep, f)
+			}
+			files = keep
 		}
 		// language version of the module (go.mod): go/ssa picks the loop-variable semantics from it
 		// (per-loop variables before go1.22, per-iteration from go1.22 on)
